@@ -227,9 +227,42 @@ def c01(tier, seed):
     return delivery_scenarios("C01", tier, seed, q(hist=0), wqs) + rich_scenarios("C01", tier, seed)
 
 
+def c02_gap(tier, seed):
+    """GAPs towards a best-effort reader: a TRANSIENT_LOCAL KEEP_LAST(1) writer whose history has holes (several instances) is
+    joined late by a best-effort TRANSIENT_LOCAL reader: DATA 1, GAP 2..3, DATA 4, DATA 5 ...; the DATA in front of the gap is
+    lost or late and a DATA behind it duplicated or delayed (one or two targeted faults)."""
+    out = []
+    # (the first two end with the sample right behind the hole, so that its duplicate arrives before anything else)
+    shapes = [[3, 1, 1], [2, 3, 1, 1], [3, 1, 2, 1, 2], [3, 1, 2, 1, 2, 3], [1, 2, 3, 2, 3, 2]]
+    for wi, wrel in enumerate(("RELIABLE", "BEST_EFFORT")):
+        for si, shape in enumerate(shapes if tier == "thorough" else shapes[:3]):
+            last = {}
+            for sn, i in enumerate(shape, start=1):
+                last[i] = sn
+            kept = sorted(last.values())
+            pats = [[]]
+            for a in kept:
+                for b in kept:
+                    if b <= a:
+                        continue
+                    pats += [[rule("DATA", "drop", sn=a), rule("DATA", "dup", sn=b)], [rule("DATA", "delay", sn=a, delay_ms=40), rule("DATA", "dup", sn=b)],
+                             [rule("DATA", "drop", sn=a), rule("DATA", "delay", sn=b, delay_ms=40)]]
+            if tier == "quick":
+                pats = pats[:8]
+            for fi, pat in enumerate(pats):
+                steps = [{"do": "participant"}, {"do": "participant"},
+                         {"do": "create_writer", "part": 0, "qos": q(rel=wrel, dur="TRANSIENT_LOCAL", hist=1)}]
+                steps += [{"do": "write", "w": 0, "i": i, "len": 8} for i in shape]
+                steps += [{"do": "sleep", "ms": 50}, {"do": "rules", "rules": pat},
+                          {"do": "create_reader", "part": 1, "qos": q(rel="BEST_EFFORT", dur="TRANSIENT_LOCAL", hist=0)},
+                          {"do": "wait_match", "w": 0, "n": 1}, {"do": "sleep", "ms": 400}] + finish(1, wait_acks=False)
+                out.append({"name": f"C02-gap-w{wi}-s{si}-f{fi}", "family": "gap", "seed": seed, "frag": 1344, "steps": steps})
+    return out
+
+
 def c02(tier, seed):
     wqs = [q(hist=0), q(rel="BEST_EFFORT", hist=0)]
-    return delivery_scenarios("C02", tier, seed, q(rel="BEST_EFFORT", hist=0), wqs) + rich_scenarios("C02", tier, seed)
+    return delivery_scenarios("C02", tier, seed, q(rel="BEST_EFFORT", hist=0), wqs) + c02_gap(tier, seed) + rich_scenarios("C02", tier, seed)
 
 
 def c05(tier, seed):
@@ -451,6 +484,20 @@ def c29(tier, seed):
             steps += [{"do": "create_reader", "part": 1, "qos": q(dur=dur)}, {"do": "wait_match", "w": 0, "n": 1}]
         steps += [{"do": "heal"}, {"do": "quiesce", "ms": 1500}, {"do": "take", "r": 0}, {"do": "final"}]
         out.append({"name": f"C29-{mode}-{k}", "family": mode, "seed": seed * 43 + k, "frag": 64, "steps": steps})
+    # back-dated writes that are expired when written, after a recent write of the SAME instance (the writer's bookkeeping of
+    # the last write time of the instance must not stand in for the sample's own timestamp), of another instance, or alone
+    for k, (rel, same, first) in enumerate([("RELIABLE", True, True), ("BEST_EFFORT", True, True), ("RELIABLE", False, True), ("RELIABLE", True, False)]):
+        steps = [{"do": "participant"}, {"do": "participant"},
+                 {"do": "create_writer", "part": 0, "qos": q(rel=rel, lifespan_ms=5000)},
+                 {"do": "create_reader", "part": 1, "qos": q(rel=rel)}, {"do": "wait_match", "w": 0, "n": 1},
+                 {"do": "sleep", "ms": 6500}]
+        if first:
+            steps += [{"do": "write", "w": 0, "i": 1, "len": 8}, {"do": "sleep", "ms": 20}]
+        steps += [{"do": "write", "w": 0, "i": 1 if same else 2, "len": 8, "ts_ms": 100}, {"do": "sleep", "ms": 20},
+                  {"do": "write", "w": 0, "i": 1, "len": 8}, {"do": "sleep", "ms": 20},
+                  {"do": "write", "w": 0, "i": 1 if same else 2, "len": 8, "ts_ms": 200},
+                  {"do": "quiesce", "ms": 1000}, {"do": "take", "r": 0}, {"do": "final"}]
+        out.append({"name": f"C29-backdated-{k}", "family": "backdated", "seed": seed * 47 + k, "frag": 1344, "steps": steps})
     return out + rich_scenarios("C29", tier, seed, n_quick=25, n_thorough=400)
 
 
